@@ -3,6 +3,89 @@ import _kvstack as kv
 import vf
 
 
+CONTRACT_ACTS = ("ContractPut", "Migrate", "Destroy", "Deploy", "DeployRefused")
+
+
+def segment(path):
+    """cut a model path into transactions and block commits; returns (segments, expected model state after each)"""
+    segs, exp, cur = [], [], []
+    for st in path["steps"]:
+        n = st["act"]["name"]
+        if n in CONTRACT_ACTS:
+            cur.append(st["act"])
+        elif n in ("CacheCommit", "CacheReset"):
+            if cur:
+                segs.append({"tx": {"acts": cur, "end": n}})
+                exp.append((st["to"], cur, n))
+            cur = []
+        elif n == "OvlCommit":
+            segs.append({"commit": True})
+            exp.append((st["to"], None, n))
+    return segs, exp   # trailing actions without a closing CacheCommit/CacheReset are dropped
+
+
+def neo_binding(ctx):
+    """C44 through the real call sites (tx_handler.go, neovm/contract.go) on a real ledger state store"""
+    r = ctx.tlc("KVStack_MC", cfg="KVStack_C44n.cfg", workers=1, timeout=1800)
+    if r.status != "ok":
+        ctx.infra("TLC did not verify KVStack_C44n.cfg: %s %s" % (r.status, r.errors[:2]))
+        return (0, 0, {})
+    edges, inits = r.prints.get("EDGE", []), r.prints.get("INIT", [])
+    paths, ncov = ctx.cover(edges, inits, max_len=40)
+    segd = [segment(p) for p in paths]
+    keep = [(p, s, e) for p, (s, e) in zip(paths, segd) if s]
+    # de-duplicate identical segment lists
+    seen, uniq = set(), []
+    for p, s, e in keep:
+        k = vf.canon(s)
+        if k not in seen:
+            seen.add(k)
+            uniq.append((p, s, e))
+    if not ctx.thorough:
+        uniq = uniq[: 1500]
+    ctx.log("ledger-level binding: %d edges, %d cover paths, %d distinct transaction scripts" % (len(edges), len(paths), len(uniq)))
+    binary = ctx.go_test_bin("core/store/ledgerstore", harness="b_exec_ledger", hide_own_tests=True, name="c44neo")
+    if not binary:
+        return (0, 0, {})
+    import os
+    fin, fout = os.path.join(ctx.scratch, "neo.in.json"), os.path.join(ctx.scratch, "neo.out.ndjson")
+    vf.write_json(fin, {"keyseq": kv.KEYSEQC, "contracts": [[1], [2]], "paths": [s for _, s, _ in uniq]})
+    rc, out = ctx.run_bin(binary, "TestVerifC44Neo", env={"VERIF_IN": fin, "VERIF_OUT": fout}, timeout=3000)
+    if rc != 0:
+        ctx.infra("ledger-level harness failed rc=%s" % rc)
+        return (0, 0, {})
+    ntx, kinds = 0, {}
+    for o in vf.read_ndjson(fout):
+        p, segs, exp = uniq[o["path"]]
+        to, acts, end = exp[o["seg"]]
+        rp = {"segments": segs[: o["seg"] + 1]}
+        names = "+".join(a["name"] for a in acts) if acts else "OvlCommit"
+        kinds[o["kind"]] = kinds.get(o["kind"], 0) + 1
+        ntx += 1
+        if o.get("err"):
+            ctx.violation("neo:%s:error" % names, o["err"], rp)
+            continue
+        want_state = -1 if acts is None else (1 if end == "CacheCommit" else 0)
+        if acts is not None and len(acts) == 1 and acts[0]["name"] == "DeployRefused" and o["kind"] == "deploytx":
+            want_state = 0      # a deploy transaction for a deployed / destroyed address must fail
+        bad = None
+        if o["state"] != want_state:
+            bad = ("tx-state", {"real": o["state"], "model": want_state, "handler_error": o.get("note")})
+        elif o["read"] != to["flatO"]:
+            bad = ("storage", {"real": o["read"], "model": to["flatO"]})
+        elif sorted(o["deployed"]) != sorted(to["metaO"][0]):
+            bad = ("deployed-set", {"real": o["deployed"], "model": to["metaO"][0]})
+        elif sorted(o["destroyed"]) != sorted(to["metaO"][1]):
+            bad = ("destroyed-set", {"real": o["destroyed"], "model": to["metaO"][1]})
+        else:
+            live = sorted([str(i + 1), v] for i, v in enumerate(to["flatO"]) if v != "")
+            if sorted(o["iter"]) != live:
+                bad = ("iterator", {"real": o["iter"], "model": live})
+        if bad:
+            ctx.violation("neo:%s:%s" % (names, bad[0]), bad[1], rp)
+    return (len(uniq), ntx, kinds)
+
+
 def run(ctx):
     acts = ["ContractPut", "CacheCommit", "OvlCommit", "Migrate", "Destroy", "Deploy", "DeployRefused"]
     cfg = "KVStack_C44t.cfg" if ctx.thorough else "KVStack_C44.cfg"
@@ -36,11 +119,13 @@ def run(ctx):
                     ctx.infra("random driver never produced a %s event" % need)
             kv.self_test(ctx, tp)
             ctx.samples.append({"trace_event": {k: evs[5][k] for k in ("event", "c", "k", "v", "res", "readC") if k in evs[5]}})
+    nneo = neo_binding(ctx)
     if paths:
         ctx.samples.append({"replayed_path": [s["act"] for s in paths[len(paths) // 2]["steps"][:10]]})
     ctx.finish("model_checking", {
         "states": ctx.stats["states"], "transitions": ctx.stats["transitions"],
-        "traces_validated_against_impl": len(paths) + ntr, "replayed_steps": nsteps, "trace_events": nev,
+        "traces_validated_against_impl": len(paths) + ntr + nneo[0], "replayed_steps": nsteps, "trace_events": nev,
         "trace_event_counts": ctx.extra.get("trace_event_counts"), "exhaustive": True,
+        "ledger_level_paths": nneo[0], "ledger_level_transactions": nneo[1], "ledger_level_kinds": nneo[2],
     }, ["destroyed-contract tracking is active (height above the configured tracking height)",
-        "CacheDB-level binding: Migrate/Destroy are CacheDB.MigrateContractStorage/CleanContractStorage; deploy refusal is read through CacheDB.GetContract; the NeoVM syscall path is bound by the ledger harness (C44 part 2)"])
+        "CacheDB-level binding: Migrate/Destroy are CacheDB.MigrateContractStorage/CleanContractStorage; deploy refusal is read through CacheDB.GetContract; the same contract actions are also replayed through HandleDeployTransaction / HandleInvokeTransaction -> NeoVM Contract.Create/Migrate/Destroy and Storage.Put on a real ledger state store (neo_binding)"])
